@@ -5,145 +5,700 @@
 //!    (`src/mir/lower.rs`, `src/mir/lower/match_expr.rs`): for each function,
 //!    the calls on `self` (`self.expr(l)`, `self.assign_to_var(l, l_ty)`,
 //!    `self.do_assign(…)`, `self.emit_switch(…)`, `self.new_block(…)` …) in
-//!    evaluation order (arguments before the call that takes them), the
-//!    iterator adaptors of the loops over arguments / fields / arms
-//!    (`arguments.iter()`, `.rev()`, `.map`), the `Value::…` / `Expr::BinOp`
-//!    constructions, and markers for `if` / `for` / `match` / closures. Arguments that
-//!    are plain local names are written `v0, v1, …` in order of first use, so a
-//!    consistent renaming of a local variable leaves the skeleton unchanged.
-//!    `Props/C08.lean` pins every skeleton to the sequence the structured
+//!    evaluation order (arguments before the call that takes them), the loops
+//!    over arguments / fields / elements / arms, the `Value::…` / `Expr::BinOp`
+//!    constructions, and markers for `if` / `match` / closures.
+//!    `Props/C08Source.lean` pins every skeleton to the sequence the structured
 //!    lowering model (`Model/LowerS.lean`) implements: a regrouped, reversed,
 //!    dropped or duplicated step changes the generated definition and the
 //!    theorem stops checking.
-#[allow(unused_imports)]
+//!
+//!    The skeleton is a *normal form*: source texts that differ only in ways
+//!    that cannot change the order of the recorded steps have the same skeleton.
+//!      1. **Locals by binding** (alpha-equivalence): every `let` / parameter /
+//!         pattern / closure-parameter binding is one variable, numbered
+//!         `v0, v1, …` in the order in which the bindings first appear in the
+//!         finished skeleton; `let x = <step>` is written `vN=step`, so the skeleton
+//!         keeps which later argument is the result of which earlier step.
+//!         Renaming a local, or giving two shadowing `let val` two names, changes
+//!         nothing; using a *different* variable does.
+//!      2. **Loops**: `for x in XS { body }`, `XS.iter().map(|x| body).collect()`
+//!         and `ys.extend(XS.iter().map(|x| body))` (the adaptor chain consumed
+//!         on the spot) are all `loop(XS) body endloop`; `.rev()` anywhere in the
+//!         chain makes it `loop-rev`; `iter`/`into_iter`/`enumerate` are dropped,
+//!         other adaptors (`zip`, `skip`, …) stay in the source text of the loop.
+//!      3. **Branches**: `if let P = e {A} else {B}` and `match e { P => A, _ => B }`
+//!         are the same `match(e) arm(P) A arm(_) B endmatch`; an `if` whose
+//!         then-branch ends in `return` takes the rest of the block as its
+//!         else-branch; a `return` in tail position of the function is the same
+//!         as the tail value (no marker). Arms whose patterns are all plain
+//!         paths (unit variants, hence disjoint) are sorted by pattern. Binders
+//!         in patterns print as `_`.
+//!      4. **Nothing recorded, nothing kept**: a loop / `if` / `match` / closure in
+//!         which no step is recorded leaves no marker, and a call `self.helper(..)`
+//!         of a method of `Lowerer` that does nothing but drop bookkeeping is not a step (this
+//!         is what removes the drop bookkeeping, C03's subject: `emit_drop`, the
+//!         live-variable lists, a drop loop moved into a helper).
+//!      5. The last arm of a `match`, when it has no guard and binds nothing, prints
+//!         as `arm(_)` (a `match` is exhaustive: it takes whatever is left).
+//!    NOT tolerated (the theorem must be re-pinned): moving a sub-expression of a
+//!    recorded argument into a local of its own (the argument's text changes).
 use super::{Gen, Target};
 use crate::find;
 use quote::ToTokens;
+use std::collections::HashMap;
 use std::path::Path;
 use syn::visit::Visit;
+use syn::visit_mut::VisitMut;
 
 pub const TARGETS: &[Target] = &[("c08order", "LowerOrder", lower_order as Gen)];
 
+/// adaptors that neither reorder nor filter: left out of a loop's source
+const PLAIN_ITER: &[&str] = &["iter", "into_iter", "iter_mut", "enumerate", "copied", "cloned", "by_ref"];
+
+/// other iterator methods: recorded when met outside a loop form
 const ITER_METHODS: &[&str] = &["iter", "into_iter", "rev", "map", "enumerate", "zip", "filter", "filter_map", "extend", "collect", "skip", "take", "chain"];
 
 const DROP_BOOKKEEPING: &[&str] = &["emit_drop", "add_live_variable", "remove_live_variable", "drop_var", "current_label"];
 
 fn toks(t: &impl ToTokens) -> String {
-    let s = t.to_token_stream().to_string().replace(' ', "");
-    if s.len() > 70 { format!("{}…", s.chars().take(70).collect::<String>()) } else { s }
+    t.to_token_stream().to_string().replace(' ', "")
 }
 
+/// placeholder of binding `b` in recorded text (replaced by `v<n>` when the skeleton is finished)
+fn ph(b: usize) -> String {
+    format!("\u{27e6}{b}\u{27e7}")
+}
+
+/// the methods of `Lowerer` by name (both files), and which of them record nothing at all
+/// ("silent": pure bookkeeping helpers — a call of one is not a step)
 #[derive(Default)]
-struct Skel {
-    out: Vec<String>,
-    /// local names in order of first use as a whole argument: a consistent renaming of a
-    /// local variable does not change the skeleton, a regrouping does
-    locals: Vec<String>,
+pub struct Methods {
+    fns: HashMap<String, find::FnBody>,
+    silent: std::cell::RefCell<HashMap<String, bool>>,
 }
 
-impl Skel {
-    /// An argument that is a plain local name (`l`, `&l_ty`) is written as `v<i>` / `&v<i>`
-    /// (index of first use in this function); anything else as its tokens.
-    fn arg(&mut self, a: &syn::Expr) -> String {
-        let t = toks(a);
-        let (amp, name) = match t.strip_prefix('&') {
-            Some(r) => ("&", r),
-            None => ("", t.as_str()),
-        };
-        let plain = !name.is_empty()
-            && name != "self"
-            && name.chars().next().map(|c| c.is_ascii_lowercase() || c == '_').unwrap_or(false)
-            && name.chars().all(|c| c.is_ascii_lowercase() || c.is_ascii_digit() || c == '_');
-        if !plain {
-            return t;
+impl Methods {
+    /// A bookkeeping helper: every call on `self` in its body is drop bookkeeping
+    /// (`DROP_BOOKKEEPING`, or another such helper), there is at least one, and the body
+    /// touches no field of `self` directly. (A leaf like `emit` / `new_block` / `tmp` is NOT
+    /// silent: it writes the block list or the temporary counter.)
+    fn is_silent(&self, name: &str) -> bool {
+        if let Some(b) = self.silent.borrow().get(name) {
+            return *b;
         }
-        let i = match self.locals.iter().position(|n| n == name) {
-            Some(i) => i,
-            None => {
-                self.locals.push(name.to_string());
-                self.locals.len() - 1
+        let Some(f) = self.fns.get(name) else { return false };
+        // while it is being computed (recursion) a method counts as not silent
+        self.silent.borrow_mut().insert(name.to_string(), false);
+        #[derive(Default)]
+        struct Uses {
+            calls: Vec<String>,
+            fields: bool,
+        }
+        impl<'ast> Visit<'ast> for Uses {
+            fn visit_expr_method_call(&mut self, m: &'ast syn::ExprMethodCall) {
+                if toks(&m.receiver) == "self" {
+                    self.calls.push(m.method.to_string());
+                    for a in &m.args {
+                        self.visit_expr(a);
+                    }
+                } else {
+                    syn::visit::visit_expr_method_call(self, m);
+                }
             }
-        };
-        format!("{amp}v{i}")
+            fn visit_expr_field(&mut self, f: &'ast syn::ExprField) {
+                if toks(&f.base) == "self" {
+                    self.fields = true;
+                }
+                syn::visit::visit_expr_field(self, f);
+            }
+        }
+        let mut u = Uses::default();
+        u.visit_block(&f.block);
+        let silent = !u.fields
+            && !u.calls.is_empty()
+            && u.calls.iter().all(|c| DROP_BOOKKEEPING.contains(&c.as_str()) || self.is_silent(c))
+            // … and nothing else is recorded in it (no `Value::…` it builds, for one)
+            && skeleton(f, self).is_empty();
+        self.silent.borrow_mut().insert(name.to_string(), silent);
+        silent
     }
 }
 
-impl<'ast> Visit<'ast> for Skel {
-    fn visit_expr_method_call(&mut self, m: &'ast syn::ExprMethodCall) {
-        // children first: a step is recorded when its operands have been evaluated
-        self.visit_expr(&m.receiver);
-        for a in &m.args {
-            self.visit_expr(a);
+struct Skel<'m> {
+    methods: &'m Methods,
+    out: Vec<String>,
+    /// name → binding id, innermost scope last
+    scopes: Vec<Vec<(String, usize)>>,
+    next_binding: usize,
+    /// is the expression about to be visited in tail position of the function?
+    tail: bool,
+}
+
+fn binder_like(name: &str) -> bool {
+    name != "self" && name.chars().next().map(|c| c.is_lowercase() || c == '_').unwrap_or(false)
+}
+
+/// rename resolved locals inside a cloned expression / pattern
+struct Renamer<'a> {
+    scopes: &'a Vec<Vec<(String, usize)>>,
+}
+
+impl Renamer<'_> {
+    fn resolve(&self, name: &str) -> Option<usize> {
+        self.scopes.iter().rev().find_map(|s| s.iter().rev().find(|(n, _)| n == name).map(|(_, b)| *b))
+    }
+}
+
+impl VisitMut for Renamer<'_> {
+    fn visit_expr_path_mut(&mut self, p: &mut syn::ExprPath) {
+        if p.qself.is_none() && p.path.leading_colon.is_none() && p.path.segments.len() == 1 && p.path.segments[0].arguments.is_none() {
+            let name = p.path.segments[0].ident.to_string();
+            if let Some(b) = self.resolve(&name) {
+                p.path.segments[0].ident = syn::Ident::new(&format!("__b{b}__"), p.path.segments[0].ident.span());
+            }
         }
-        let recv = toks(&m.receiver);
+    }
+    fn visit_field_value_mut(&mut self, f: &mut syn::FieldValue) {
+        // `S { left }` is `S { left: left }`: print both, so that the value can be renamed
+        if f.colon_token.is_none() {
+            f.colon_token = Some(Default::default());
+        }
+        self.visit_expr_mut(&mut f.expr);
+    }
+    fn visit_expr_macro_mut(&mut self, m: &mut syn::ExprMacro) {
+        // `vec![a, b]`, `format!("…", x)`: rename inside when the body is a list of expressions
+        use syn::parse::Parser;
+        let parser = syn::punctuated::Punctuated::<syn::Expr, syn::Token![,]>::parse_terminated;
+        if let Ok(mut list) = parser.parse2(m.mac.tokens.clone()) {
+            for e in list.iter_mut() {
+                self.visit_expr_mut(e);
+            }
+            m.mac.tokens = list.to_token_stream();
+        }
+    }
+    fn visit_expr_closure_mut(&mut self, _c: &mut syn::ExprClosure) {
+        // a closure inside recorded text: left as written
+    }
+}
+
+/// binders of a pattern print as `_`
+struct PatBlank;
+impl VisitMut for PatBlank {
+    fn visit_pat_mut(&mut self, p: &mut syn::Pat) {
+        if let syn::Pat::Ident(i) = p {
+            if binder_like(&i.ident.to_string()) && i.subpat.is_none() {
+                *p = syn::Pat::Wild(syn::PatWild { attrs: vec![], underscore_token: Default::default() });
+                return;
+            }
+        }
+        syn::visit_mut::visit_pat_mut(self, p);
+    }
+}
+
+fn fix_placeholders(s: String) -> String {
+    // `__b17__` (an identifier, so that syn prints it) → ⟦17⟧
+    let mut out = String::new();
+    let mut rest = s.as_str();
+    while let Some(i) = rest.find("__b") {
+        let after = &rest[i + 3..];
+        let digits: String = after.chars().take_while(|c| c.is_ascii_digit()).collect();
+        if !digits.is_empty() && after[digits.len()..].starts_with("__") {
+            out.push_str(&rest[..i]);
+            out.push_str(&ph(digits.parse().unwrap()));
+            rest = &after[digits.len() + 2..];
+        } else {
+            out.push_str(&rest[..i + 3]);
+            rest = after;
+        }
+    }
+    out.push_str(rest);
+    out
+}
+
+impl<'m> Skel<'m> {
+    fn new(methods: &'m Methods) -> Skel<'m> {
+        Skel { methods, out: vec![], scopes: vec![vec![]], next_binding: 0, tail: false }
+    }
+
+    fn bind(&mut self, name: &str) {
+        let b = self.next_binding;
+        self.next_binding += 1;
+        self.scopes.last_mut().unwrap().push((name.to_string(), b));
+    }
+
+    fn bind_pat(&mut self, p: &syn::Pat) {
+        struct B<'a>(&'a mut Vec<String>);
+        impl<'ast> Visit<'ast> for B<'_> {
+            fn visit_pat_ident(&mut self, i: &'ast syn::PatIdent) {
+                let n = i.ident.to_string();
+                if binder_like(&n) {
+                    self.0.push(n);
+                }
+                if let Some((_, sub)) = &i.subpat {
+                    self.visit_pat(sub);
+                }
+            }
+        }
+        let mut names = vec![];
+        B(&mut names).visit_pat(p);
+        for n in names {
+            self.bind(&n);
+        }
+    }
+
+    /// the text of an expression with its locals replaced by binding placeholders
+    fn render(&self, e: &syn::Expr) -> String {
+        let mut c = e.clone();
+        Renamer { scopes: &self.scopes }.visit_expr_mut(&mut c);
+        fix_placeholders(toks(&c))
+    }
+
+    fn render_pat(&self, p: &syn::Pat) -> String {
+        let mut c = p.clone();
+        PatBlank.visit_pat_mut(&mut c);
+        toks(&c)
+    }
+
+    /// the steps recorded while running `f`, in a buffer of their own
+    fn sub(&mut self, f: impl FnOnce(&mut Skel<'m>)) -> Vec<String> {
+        let saved = std::mem::take(&mut self.out);
+        f(self);
+        std::mem::replace(&mut self.out, saved)
+    }
+
+    fn scoped<R>(&mut self, f: impl FnOnce(&mut Skel<'m>) -> R) -> R {
+        self.scopes.push(vec![]);
+        let r = f(self);
+        self.scopes.pop();
+        r
+    }
+
+    fn expr_in(&mut self, e: &syn::Expr, tail: bool) {
+        self.tail = tail;
+        self.visit_expr(e);
+        self.tail = false;
+    }
+
+    /// is the expression itself recorded as a step (the last one recorded when it is visited)?
+    fn is_step(&self, e: &syn::Expr) -> bool {
+        match e {
+            syn::Expr::MethodCall(m) => {
+                toks(&m.receiver) == "self" && !DROP_BOOKKEEPING.contains(&m.method.to_string().as_str()) && !self.methods.is_silent(&m.method.to_string())
+            }
+            syn::Expr::Struct(s) => toks(&s.path).starts_with("Value::"),
+            syn::Expr::Call(c) => toks(&c.func).ends_with("Expr::BinOp"),
+            _ => false,
+        }
+    }
+
+    /// does the block end by leaving the function?
+    fn ends_in_return(b: &syn::Block) -> bool {
+        match b.stmts.last() {
+            Some(syn::Stmt::Expr(syn::Expr::Return(_), _)) => true,
+            _ => false,
+        }
+    }
+
+    /// statements `from..` of a block, in the current scope
+    fn stmts(&mut self, stmts: &[syn::Stmt], tail: bool) {
+        for (i, st) in stmts.iter().enumerate() {
+            let is_last = i + 1 == stmts.len();
+            match st {
+                syn::Stmt::Local(l) => {
+                    let mut defines = false;
+                    if let Some(init) = &l.init {
+                        let before = self.out.len();
+                        self.expr_in(&init.expr, false);
+                        // `let x = <recorded step>`: the step is written `x=step`, so that the skeleton
+                        // keeps which later argument is the result of which earlier step
+                        defines = self.out.len() > before && self.is_step(&init.expr) && init.diverge.is_none();
+                        if let Some((_, div)) = &init.diverge {
+                            let d = self.sub(|s| s.expr_in(div, false));
+                            if !d.is_empty() {
+                                self.out.push("letelse".into());
+                                self.out.extend(d);
+                                self.out.push("endletelse".into());
+                            }
+                        }
+                    }
+                    self.bind_pat(&l.pat);
+                    let single = match &l.pat {
+                        syn::Pat::Ident(i) => binder_like(&i.ident.to_string()),
+                        syn::Pat::Type(t) => matches!(&*t.pat, syn::Pat::Ident(i) if binder_like(&i.ident.to_string())),
+                        _ => false,
+                    };
+                    if defines && single {
+                        let b = self.next_binding - 1;
+                        let last = self.out.last_mut().unwrap();
+                        *last = format!("{}={last}", ph(b));
+                    }
+                }
+                syn::Stmt::Expr(syn::Expr::If(iff), _) if iff.else_branch.is_none() && Self::ends_in_return(&iff.then_branch) && !is_last => {
+                    // `if c { …; return x; } rest…`: the rest of the block is the else-branch
+                    let rest = &stmts[i + 1..];
+                    self.branch(iff, tail, Some(rest));
+                    return;
+                }
+                syn::Stmt::Expr(e, semi) => {
+                    // the last statement of a tail block is in tail position (`x` and `return x;` alike)
+                    let t = tail && is_last && (semi.is_none() || matches!(e, syn::Expr::Return(_) | syn::Expr::If(_) | syn::Expr::Match(_)));
+                    self.expr_in(e, t);
+                }
+                syn::Stmt::Item(_) | syn::Stmt::Macro(_) => {}
+            }
+        }
+    }
+
+    fn block(&mut self, b: &syn::Block, tail: bool) {
+        self.scoped(|s| s.stmts(&b.stmts, tail));
+    }
+
+    /// `if` / `if let`, with `rest` (the remaining statements of the enclosing block) as the
+    /// else-branch when the then-branch returns
+    fn branch(&mut self, i: &syn::ExprIf, tail: bool, rest: Option<&[syn::Stmt]>) {
+        let (pat, scrut): (Option<&syn::Pat>, &syn::Expr) = match &*i.cond {
+            syn::Expr::Let(l) => (Some(&*l.pat), &*l.expr),
+            c => (None, c),
+        };
+        self.expr_in(scrut, false);
+        let head = match pat {
+            Some(_) => format!("match({})", self.render(scrut)),
+            None => "if".to_string(), // the condition's text is left out; its steps were recorded above
+        };
+        let then_steps = self.scoped(|s| {
+            if let Some(p) = pat {
+                s.bind_pat(p);
+            }
+            s.sub(|s| s.stmts(&i.then_branch.stmts, tail))
+        });
+        let else_steps = match (&i.else_branch, rest) {
+            (Some((_, e)), _) => self.sub(|s| s.expr_in(e, tail)),
+            (None, Some(rest)) => self.sub(|s| s.stmts(rest, tail)),
+            (None, None) => vec![],
+        };
+        if then_steps.is_empty() && else_steps.is_empty() {
+            return;
+        }
+        match pat {
+            Some(p) => {
+                self.out.push(head);
+                self.out.push(format!("arm({})", self.render_pat(p)));
+                self.out.extend(then_steps);
+                self.out.push("arm(_)".into());
+                self.out.extend(else_steps);
+                self.out.push("endmatch".into());
+            }
+            None => {
+                self.out.push(head);
+                self.out.extend(then_steps);
+                if !else_steps.is_empty() {
+                    self.out.push("else".into());
+                    self.out.extend(else_steps);
+                }
+                self.out.push("endif".into());
+            }
+        }
+    }
+
+    /// An iterator chain `BASE.a().b(…).map(|x| body).c()`: (loop source, reversed?, closure) when
+    /// it has exactly one `map` with a closure; the steps of the base expression are recorded.
+    fn chain<'a>(&mut self, e: &'a syn::Expr, need_map: bool) -> Option<(String, bool, Option<&'a syn::ExprClosure>)> {
+        let mut calls: Vec<&syn::ExprMethodCall> = vec![];
+        let mut cur = e;
+        loop {
+            match cur {
+                syn::Expr::MethodCall(m) if ITER_METHODS.contains(&m.method.to_string().as_str()) || PLAIN_ITER.contains(&m.method.to_string().as_str()) => {
+                    calls.push(m);
+                    cur = &m.receiver;
+                }
+                syn::Expr::Paren(p) => cur = &p.expr,
+                syn::Expr::Reference(r) => cur = &r.expr,
+                _ => break,
+            }
+        }
+        calls.reverse();
+        let mut rev = false;
+        let mut closure = None;
+        let mut kept = String::new();
+        for m in &calls {
+            let name = m.method.to_string();
+            match name.as_str() {
+                n if PLAIN_ITER.contains(&n) => {}
+                "rev" => rev = !rev,
+                "map" => match m.args.first() {
+                    Some(syn::Expr::Closure(c)) if closure.is_none() && m.args.len() == 1 => closure = Some(c),
+                    _ => return None,
+                },
+                "extend" | "collect" => return None,
+                _ => {
+                    let args: Vec<String> = m.args.iter().map(|a| self.render(a)).collect();
+                    kept.push_str(&format!(".{name}({})", args.join(",")));
+                }
+            }
+        }
+        if need_map && closure.is_none() {
+            return None;
+        }
+        self.expr_in(cur, false);
+        for m in &calls {
+            if m.method != "map" {
+                for a in &m.args {
+                    self.expr_in(a, false);
+                }
+            }
+        }
+        Some((format!("{}{kept}", self.render(cur)), rev, closure))
+    }
+
+    fn emit_loop(&mut self, src: String, rev: bool, body: Vec<String>) {
+        if body.is_empty() {
+            return;
+        }
+        self.out.push(format!("{}({src})", if rev { "loop-rev" } else { "loop" }));
+        self.out.extend(body);
+        self.out.push("endloop".into());
+    }
+
+    /// `CHAIN.collect()` / `recv.extend(CHAIN)` with one `map(closure)` in the chain: a loop
+    fn try_loop_form(&mut self, m: &syn::ExprMethodCall) -> bool {
         let name = m.method.to_string();
-        if DROP_BOOKKEEPING.contains(&name.as_str()) || recv.contains("to_drop") || recv.contains("stack_slots") {
-            // drop bookkeeping is C03's subject and has no effect on the order of host calls
-            return;
+        let chain_expr: &syn::Expr = match name.as_str() {
+            "collect" if m.args.is_empty() => &m.receiver,
+            "extend" if m.args.len() == 1 => &m.args[0],
+            _ => return false,
+        };
+        // probe without recording
+        let saved = std::mem::take(&mut self.out);
+        let probe = self.chain(chain_expr, true);
+        let base_steps = std::mem::replace(&mut self.out, saved);
+        let Some((src, rev, Some(c))) = probe else { return false };
+        if name == "extend" {
+            self.expr_in(&m.receiver, false);
         }
-        if recv == "self" {
-            let args: Vec<String> = m.args.iter().map(|a| self.arg(a)).collect();
-            self.out.push(format!("self.{name}({})", args.join(",")));
-        } else if ITER_METHODS.contains(&name.as_str()) {
-            let r = if recv.len() > 40 { "…".to_string() } else { recv };
-            self.out.push(format!("{r}.{name}"));
+        self.out.extend(base_steps);
+        let body = self.scoped(|s| {
+            for p in &c.inputs {
+                s.bind_pat(p);
+            }
+            s.sub(|s| s.expr_in(&c.body, false))
+        });
+        self.emit_loop(src, rev, body);
+        true
+    }
+}
+
+impl<'ast, 'm> Visit<'ast> for Skel<'m> {
+    fn visit_expr(&mut self, e: &'ast syn::Expr) {
+        let tail = std::mem::replace(&mut self.tail, false);
+        match e {
+            syn::Expr::If(i) => self.branch(i, tail, None),
+            syn::Expr::Block(b) => self.block(&b.block, tail),
+            syn::Expr::Paren(p) => self.expr_in(&p.expr, tail),
+            syn::Expr::Group(g) => self.expr_in(&g.expr, tail),
+            syn::Expr::Return(r) => {
+                if let Some(v) = &r.expr {
+                    self.expr_in(v, false);
+                }
+                if !tail {
+                    self.out.push("return".into());
+                }
+            }
+            syn::Expr::Match(m) => {
+                self.expr_in(&m.expr, false);
+                let mut arms: Vec<(String, Vec<String>)> = vec![];
+                let mut plain_paths = true;
+                for a in &m.arms {
+                    let catch_all = a.guard.is_none()
+                        && (matches!(&a.pat, syn::Pat::Wild(_)) || matches!(&a.pat, syn::Pat::Ident(i) if binder_like(&i.ident.to_string()) && i.subpat.is_none()));
+                    plain_paths &= a.guard.is_none() && matches!(&a.pat, syn::Pat::Path(_));
+                    let pat = if catch_all { "_".to_string() } else { self.render_pat(&a.pat) };
+                    // `match x { …, y => … }`: the catch-all binder is another name of the local `x`
+                    let alias: Option<(String, usize)> = match (&a.pat, &*m.expr) {
+                        (syn::Pat::Ident(i), syn::Expr::Path(p)) if catch_all && p.qself.is_none() && p.path.segments.len() == 1 => {
+                            Renamer { scopes: &self.scopes }.resolve(&p.path.segments[0].ident.to_string()).map(|b| (i.ident.to_string(), b))
+                        }
+                        _ => None,
+                    };
+                    let steps = self.scoped(|s| {
+                        match alias {
+                            Some(a) => s.scopes.last_mut().unwrap().push(a),
+                            None => s.bind_pat(&a.pat),
+                        }
+                        s.sub(|s| {
+                            if let Some((_, g)) = &a.guard {
+                                s.expr_in(g, false);
+                            }
+                            s.expr_in(&a.body, tail);
+                        })
+                    });
+                    arms.push((pat, steps));
+                }
+                if arms.iter().all(|(_, s)| s.is_empty()) {
+                    return;
+                }
+                if plain_paths {
+                    // unit variants: disjoint, so the order of the arms means nothing
+                    arms.sort();
+                }
+                // a `match` is exhaustive: its last arm, when it has no guard and binds nothing, takes
+                // whatever is left — the same as `_` (so `Some(x) => A, None => B` is `if let Some(x) … else B`)
+                if let (Some(last_arm), Some(last)) = (m.arms.last(), arms.last_mut()) {
+                    let mut names = vec![];
+                    struct B<'a>(&'a mut Vec<String>);
+                    impl<'ast> Visit<'ast> for B<'_> {
+                        fn visit_pat_ident(&mut self, i: &'ast syn::PatIdent) {
+                            if binder_like(&i.ident.to_string()) {
+                                self.0.push(i.ident.to_string());
+                            }
+                        }
+                    }
+                    B(&mut names).visit_pat(&last_arm.pat);
+                    if last_arm.guard.is_none() && names.is_empty() && !plain_paths {
+                        last.0 = "_".to_string();
+                    }
+                }
+                self.out.push(format!("match({})", self.render(&m.expr)));
+                for (p, s) in arms {
+                    self.out.push(format!("arm({p})"));
+                    self.out.extend(s);
+                }
+                self.out.push("endmatch".into());
+            }
+            syn::Expr::ForLoop(f) => {
+                let saved = std::mem::take(&mut self.out);
+                let probe = self.chain(&f.expr, false);
+                let base_steps = std::mem::replace(&mut self.out, saved);
+                let (src, rev) = match probe {
+                    Some((src, rev, None)) => {
+                        self.out.extend(base_steps);
+                        (src, rev)
+                    }
+                    _ => {
+                        self.expr_in(&f.expr, false);
+                        (self.render(&f.expr), false)
+                    }
+                };
+                let body = self.scoped(|s| {
+                    s.bind_pat(&f.pat);
+                    s.sub(|s| s.block(&f.body, false))
+                });
+                self.emit_loop(src, rev, body);
+            }
+            syn::Expr::While(w) => {
+                let body = self.sub(|s| {
+                    s.expr_in(&w.cond, false);
+                    s.block(&w.body, false);
+                });
+                if !body.is_empty() {
+                    self.out.push("while".into());
+                    self.out.extend(body);
+                    self.out.push("endwhile".into());
+                }
+            }
+            syn::Expr::Loop(l) => {
+                let body = self.sub(|s| s.block(&l.body, false));
+                if !body.is_empty() {
+                    self.out.push("while".into());
+                    self.out.extend(body);
+                    self.out.push("endwhile".into());
+                }
+            }
+            syn::Expr::Closure(c) => {
+                let body = self.scoped(|s| {
+                    for p in &c.inputs {
+                        s.bind_pat(p);
+                    }
+                    s.sub(|s| s.expr_in(&c.body, false))
+                });
+                if !body.is_empty() {
+                    self.out.push("closure".into());
+                    self.out.extend(body);
+                    self.out.push("endclosure".into());
+                }
+            }
+            syn::Expr::MethodCall(m) => {
+                if self.try_loop_form(m) {
+                    return;
+                }
+                // children first: a step is recorded when its operands have been evaluated
+                self.expr_in(&m.receiver, false);
+                for a in &m.args {
+                    self.expr_in(a, false);
+                }
+                let recv = toks(&m.receiver);
+                let name = m.method.to_string();
+                if DROP_BOOKKEEPING.contains(&name.as_str()) {
+                    // drop bookkeeping is C03's subject and has no effect on the order of host calls
+                    return;
+                }
+                if recv == "self" && self.methods.is_silent(&name) {
+                    // a helper of `Lowerer` in which nothing is recorded (pure bookkeeping): not a step
+                    return;
+                }
+                if recv == "self" {
+                    let args: Vec<String> = m.args.iter().map(|a| self.render(a)).collect();
+                    self.out.push(format!("self.{name}({})", args.join(",")));
+                } else if ITER_METHODS.contains(&name.as_str()) && m.args.iter().any(|a| matches!(a, syn::Expr::Closure(_))) {
+                    // an adaptor with a closure that is not consumed on the spot: kept as written
+                    self.out.push(format!("{}.{name}", self.render(&m.receiver)));
+                } else if name == "rev" {
+                    self.out.push(format!("{}.rev", self.render(&m.receiver)));
+                }
+            }
+            syn::Expr::Call(c) => {
+                self.expr_in(&c.func, false);
+                for a in &c.args {
+                    self.expr_in(a, false);
+                }
+                if toks(&c.func).ends_with("Expr::BinOp") {
+                    let args: Vec<String> = c.args.iter().map(|a| self.render(a)).collect();
+                    self.out.push(format!("Expr::BinOp({})", args.join(",")));
+                }
+            }
+            syn::Expr::Struct(s) => {
+                for f in &s.fields {
+                    self.expr_in(&f.expr, false);
+                }
+                if let Some(r) = &s.rest {
+                    self.expr_in(r, false);
+                }
+                let p = toks(&s.path);
+                if p.starts_with("Value::") {
+                    let fields: Vec<String> = s.fields.iter().map(|f| format!("{}:{}", toks(&f.member), self.render(&f.expr))).collect();
+                    self.out.push(format!("{p}{{{}}}", fields.join(",")));
+                }
+            }
+            other => syn::visit::visit_expr(self, other),
         }
     }
-    fn visit_expr_call(&mut self, c: &'ast syn::ExprCall) {
-        syn::visit::visit_expr_call(self, c);
-        let f = toks(&c.func);
-        if f.ends_with("Expr::BinOp") {
-            let args: Vec<String> = c.args.iter().map(|a| toks(a)).collect();
-            self.out.push(format!("Expr::BinOp({})", args.join(",")));
+    fn visit_block(&mut self, b: &'ast syn::Block) {
+        self.block(b, false);
+    }
+    fn visit_item(&mut self, _i: &'ast syn::Item) {}
+}
+
+/// number the bindings in order of first appearance in the finished skeleton; cut long steps
+fn finish(steps: Vec<String>) -> Vec<String> {
+    let mut num: HashMap<usize, usize> = HashMap::new();
+    let mut out = vec![];
+    for s in steps {
+        let mut t = String::new();
+        let mut rest = s.as_str();
+        while let Some(i) = rest.find('\u{27e6}') {
+            t.push_str(&rest[..i]);
+            let after = &rest[i + '\u{27e6}'.len_utf8()..];
+            let j = after.find('\u{27e7}').unwrap();
+            let b: usize = after[..j].parse().unwrap();
+            let n = num.len();
+            let v = *num.entry(b).or_insert(n);
+            t.push_str(&format!("v{v}"));
+            rest = &after[j + '\u{27e7}'.len_utf8()..];
         }
+        t.push_str(rest);
+        out.push(if t.chars().count() > 200 { format!("{}…", t.chars().take(200).collect::<String>()) } else { t });
     }
-    fn visit_expr_struct(&mut self, s: &'ast syn::ExprStruct) {
-        syn::visit::visit_expr_struct(self, s);
-        let p = toks(&s.path);
-        if p.starts_with("Value::") {
-            let fields: Vec<String> = s.fields.iter().map(|f| format!("{}:{}", toks(&f.member), self.arg(&f.expr))).collect();
-            self.out.push(format!("{p}{{{}}}", fields.join(",")));
-        }
-    }
-    fn visit_expr_if(&mut self, i: &'ast syn::ExprIf) {
-        self.visit_expr(&i.cond);
-        // the condition's text is left out (it names locals); its calls were recorded above
-        self.out.push("if".into());
-        self.visit_block(&i.then_branch);
-        if let Some((_, e)) = &i.else_branch {
-            self.out.push("else".into());
-            self.visit_expr(e);
-        }
-        self.out.push("endif".into());
-    }
-    fn visit_expr_for_loop(&mut self, f: &'ast syn::ExprForLoop) {
-        let e = toks(&f.expr);
-        if e.contains("to_drop") || e.contains("stack_slots") || e.contains("frame") {
-            return;
-        }
-        self.visit_expr(&f.expr);
-        self.out.push(format!("for({})", toks(&f.expr)));
-        self.visit_block(&f.body);
-        self.out.push("endfor".into());
-    }
-    fn visit_expr_match(&mut self, m: &'ast syn::ExprMatch) {
-        self.visit_expr(&m.expr);
-        self.out.push(format!("match({})", toks(&m.expr)));
-        for a in &m.arms {
-            self.out.push(format!("arm({})", toks(&a.pat)));
-            self.visit_expr(&a.body);
-        }
-        self.out.push("endmatch".into());
-    }
-    fn visit_expr_closure(&mut self, c: &'ast syn::ExprClosure) {
-        self.out.push("closure".into());
-        self.visit_expr(&c.body);
-        self.out.push("endclosure".into());
-    }
-    fn visit_expr_return(&mut self, r: &'ast syn::ExprReturn) {
-        syn::visit::visit_expr_return(self, r);
-        self.out.push("return".into());
-    }
+    out
 }
 
 /// (Lean name, file, function)
@@ -194,10 +749,45 @@ fn lean_str(s: &str) -> String {
     o
 }
 
+/// the finished skeleton of one function
+pub fn skeleton(f: &find::FnBody, methods: &Methods) -> Vec<String> {
+    let mut sk = Skel::new(methods);
+    for a in &f.sig.inputs {
+        if let syn::FnArg::Typed(t) = a {
+            sk.bind_pat(&t.pat);
+        }
+    }
+    sk.stmts(&f.block.stmts, true);
+    finish(sk.out)
+}
+
 fn lower_order(repo: &Path) -> Result<String, String> {
     let mut out = String::new();
     out.push_str("/- GENERATED by /verif/extract from src/mir/lower.rs and src/mir/lower/match_expr.rs — do not edit.\n   The step skeleton of the lowering functions (see extract/src/targets/c08.rs). -/\nnamespace RotoV.Gen.LowerOrder\n\n");
     let mut cache: Vec<(String, syn::File)> = vec![];
+    // every method of `Lowerer` (for the "silent helper" rule)
+    let mut methods = Methods::default();
+    for file in ["src/mir/lower.rs", "src/mir/lower/match_expr.rs"] {
+        let parsed = find::parse(repo, file)?;
+        struct All<'a>(&'a mut Methods, bool);
+        impl<'ast> Visit<'ast> for All<'_> {
+            fn visit_item_impl(&mut self, i: &'ast syn::ItemImpl) {
+                let ty = i.self_ty.to_token_stream().to_string().replace(' ', "");
+                let old = std::mem::replace(&mut self.1, ty.starts_with("Lowerer") && i.trait_.is_none());
+                syn::visit::visit_item_impl(self, i);
+                self.1 = old;
+            }
+            fn visit_impl_item_fn(&mut self, f: &'ast syn::ImplItemFn) {
+                // hooks are not part of the lowering
+                let hook = f.attrs.iter().any(|a| a.to_token_stream().to_string().contains("verif-hooks"));
+                if self.1 && !hook {
+                    self.0.fns.insert(f.sig.ident.to_string().trim_start_matches("r#").to_string(), find::FnBody { sig: f.sig.clone(), block: f.block.clone(), impl_of: None });
+                }
+            }
+        }
+        All(&mut methods, false).visit_file(&parsed);
+        cache.push((file.to_string(), parsed));
+    }
     for (lean, file, func) in FUNCS {
         if !cache.iter().any(|(f, _)| f == file) {
             cache.push((file.to_string(), find::parse(repo, file)?));
@@ -207,13 +797,12 @@ fn lower_order(repo: &Path) -> Result<String, String> {
         let f = find::func(parsed, func, Some("Lowerer"))
             .or_else(|_| find::func(parsed, &format!("r#{func}"), Some("Lowerer")))
             .map_err(|e| format!("{file}: {e}"))?;
-        let mut sk = Skel::default();
-        sk.visit_block(&f.block);
-        if sk.out.is_empty() {
+        let steps = skeleton(&f, &methods);
+        if steps.is_empty() {
             return Err(format!("{file}: {func}: empty skeleton"));
         }
         out.push_str(&format!("/-- `Lowerer::{func}` ({file}) -/\ndef {lean} : List String := [\n"));
-        out.push_str(&sk.out.iter().map(|s| format!("  {}", lean_str(s))).collect::<Vec<_>>().join(",\n"));
+        out.push_str(&steps.iter().map(|s| format!("  {}", lean_str(s))).collect::<Vec<_>>().join(",\n"));
         out.push_str("\n]\n\n");
     }
     out.push_str("end RotoV.Gen.LowerOrder\n");
